@@ -429,6 +429,27 @@ theorem faceNormalDir_rotate (R : M3) (hR : R.Orthogonal) (t : V3) (vs : List V3
   simp only [pt_map _ vs _ m0, pt_map _ vs _ m1, pt_map _ vs _ m2]
   exact normalDir_rotate R hR t _ _ _
 
+/-! ## translated guards of `angle_defects` and resets of the interpolation functions (round 3) -/
+
+/-- bridge: the model's angle-defect structure is what the source's default value / border loop / skip guard (re-extracted on every
+run into `Generated.C07.defectBase`, `defectSkip`) prescribe: start from `defectBase·π`, subtract the corner angles unless skipped -/
+theorem angleDefectStruct_bridge (faces : List Face) (zb : Bool) (v : Nat) :
+    angleDefectStruct faces zb v =
+      (Mouette.Generated.C07.defectBase (isBorderVertex faces v) zb,
+       if Mouette.Generated.C07.defectSkip (isBorderVertex faces v) zb then [] else indicesWhere (cornerVerts faces) v) := by
+  unfold angleDefectStruct Mouette.Generated.C07.defectBase Mouette.Generated.C07.defectSkip
+  cases isBorderVertex faces v <;> cases zb <;> simp
+
+/-- the values of the translated table: interior 2π, border π, border with `zero_border` 0 (and nothing subtracted there) -/
+theorem defect_table :
+    Mouette.Generated.C07.defectBase false false = 2 ∧ Mouette.Generated.C07.defectBase false true = 2 ∧
+    Mouette.Generated.C07.defectBase true false = 1 ∧ Mouette.Generated.C07.defectBase true true = 0 ∧
+    (∀ b zb, Mouette.Generated.C07.defectSkip b zb = (b && zb)) := by decide
+
+/-- every accumulation into an output attribute in `interpolate.py` is preceded by `<output>.clear()` (so a second call on a used
+output attribute equals the first: the premise "fresh output" of `interpolate_constant` is re-established by the code itself) -/
+theorem interp_outputs_cleared : ∀ p ∈ Mouette.Generated.C07.accumulatesAfterClear, p.2 = true := by decide
+
 /-! ## non-vacuity -/
 
 example : (quatRot 1 2 2 0).Orthogonal := (quatRot_orthogonal 1 2 2 0 (by norm_num)).1
